@@ -492,7 +492,11 @@ func (c *simClient) ReplicateMessage(ctx context.Context, channelName string, be
 		for _, m := range ack.Msgs {
 			fmt.Fprintf(&sb, " %s:%d@%d", m.Type, m.Tag, m.Ts)
 		}
-		c.w.Note("ack %s [%d,%d] seq=%d%s", channelName, beginTs, endTs, ack.EndSeq, sb.String())
+		pch := ""
+		if len(endPositions) > 0 {
+			pch = endPositions[len(endPositions)-1].ChannelName
+		}
+		c.w.Note("ack %s [%d,%d] seq=%d pos=%s%s", channelName, beginTs, endTs, ack.EndSeq, pch, sb.String())
 	}
 	pos := &msgpb.MsgPosition{ChannelName: channelName, MsgID: []byte(fmt.Sprintf("t%d", len(c.w.State.Acks))), Timestamp: endTs}
 	b, _ := proto.Marshal(pos)
